@@ -26,6 +26,7 @@ type Tables struct {
 	Nesting       []NestingSpec       `json:"nesting"`
 	CoAccess      []CoAccessSpec      `json:"co_access"`
 	NestedKills   []NestedKillSpec    `json:"nested_kills"`
+	RuleCoverage  []RuleCoverageSpec  `json:"rule_coverage"`
 	Termination   TermSpec            `json:"termination"`
 	FuncProps     map[string][]string `json:"func_props"` // function key -> properties that depend on its termination
 	// E5
